@@ -48,6 +48,10 @@ def evaluate(case):
         plan.append((tm, bm, None, (.5, 1) if FULL else ((.5, 1)[(i + i // 4) % 2],)))
     for tm, bm in (itertools.product(ROUTE_VALS, ROUTE_VALS) if FULL else [(None, None), (1, None), (None, 2), (4, 1)]):
         plan.append((tm, bm, .2, (.5, 1) if FULL else (.5,)))
+    for tm, bm in ([(None, None), (1, None), (None, 2), (4, 1)] if FULL else [(None, None)]):
+        plan.append((tm, bm, 0, (.5,)))          # a minimum duration of exactly 0 (documented) keeps every period
+        if FULL:
+            plan.append((tm, bm, .05, (.5,)))
     for tm, bm, dur, bfts in plan:
         m = bm if bm is not None else (tm if tm is not None else 3)
         for bft in bfts:
